@@ -998,7 +998,7 @@ fn find_script_for_hash(tx: &tir::Tx, hash: primitives::Hash<28>) -> Option<tir:
 }
 
 fn compile_adhoc_plutus_witness<const V: usize>(tx: &tir::Tx) -> Vec<PlutusScript<V>> {
-    let out: Vec<_> = tx
+    let out: Vec<primitives::Bytes> = tx
         .adhoc
         .iter()
         .filter(|x| x.name.as_str() == "plutus_witness")
@@ -1018,10 +1018,18 @@ fn compile_adhoc_plutus_witness<const V: usize>(tx: &tir::Tx) -> Vec<PlutusScrip
                 .transpose()
                 .unwrap_or(None)
         })
-        .map(PlutusScript::<V>)
         .collect();
 
-    out
+    // the witness scripts form a set: a script attached by two blocks is carried once
+    let mut distinct: Vec<_> = vec![];
+
+    for script in out {
+        if !distinct.contains(&script) {
+            distinct.push(script);
+        }
+    }
+
+    distinct.into_iter().map(PlutusScript::<V>).collect()
 }
 
 pub type NativeWitness = KeepRaw<'static, primitives::NativeScript>;
@@ -1038,6 +1046,15 @@ fn compile_adhoc_native_witness(tx: &tir::Tx) -> Result<Vec<NativeWitness>, Erro
                 .transpose()
                 .unwrap_or(None)
         })
+        // a script attached by two blocks is carried once
+        .fold(Vec::<primitives::Bytes>::new(), |mut distinct, script| {
+            if !distinct.contains(&script) {
+                distinct.push(script);
+            }
+
+            distinct
+        })
+        .into_iter()
         .map(|script_bytes| {
             pallas::codec::minicbor::decode::<primitives::NativeScript>(&script_bytes)
                 .map(KeepRaw::from)
